@@ -679,6 +679,16 @@ def oracle_C11(L, K, lines, steps, spec):
                    ii + 1, ii, ii, n, 0]
             if st["iter"] != exp:
                 v.append("step %d iter %d %d: iterator expressions give %r, index arithmetic gives %r" % (i, ii, j, st["iter"], exp))
+        # swap(reference, reference) exchanges objects of a type with its own swap THROUGH that
+        # swap - once per object (the instrumented types report it) - and never behind its back
+        if sp["op"] == "refswap" and i > 0:
+            a = sp["args"]
+            if not (a[0] == a[2] and a[1] == a[3]):
+                t = sp["slots"][a[0]].elems[a[1]]
+                want = sum(len(f) for f, p in zip(t, L) if p.ty in (lay.TTRK, lay.TSW))
+                got = sum(1 for e in st["events"] if e[0] == "SW")
+                if got != want:
+                    v.append("step %d refswap: the value types' own swap ran %d times, the swapped elements hold %d objects of such types" % (i, got, want))
     return v[:5]
 
 
